@@ -2,7 +2,7 @@
 # tools/eval_round2.sh <PROP> <origk> <newk> : round-2 candidates are stored as <PROP>-<newk>
 set -u
 cd "$(dirname "$0")/.."
-ID="$1"; OK="$2"; NK="$3"; O="/tmp/mut/$ID/OUT"
+ID="$1"; OK="$2"; NK="$3"; O="${MUTROOT:-/tmp/mut3}/$ID/OUT"
 [ -f "$O/patch$OK.diff" ] || { echo "no $O/patch$OK.diff"; exit 0; }
 cp "$O/patch$OK.diff" "$O/patch$NK.diff"; cp "$O/notes$OK.md" "$O/notes$NK.md" 2>/dev/null
 [ -f "$O/demo$OK.sh" ] && cp "$O/demo$OK.sh" "$O/demo$NK.sh"
